@@ -1455,6 +1455,7 @@ func NewMutableHash() *MutableHashValue {
 // is not thread safe
 func (hv *MutableHashValue) PutAll(o px.OrderedMap) {
 	hv.entries = hv.mergeEntries(o)
+	hv.reducedType = nil
 	hv.detailedType = nil
 	hv.index = nil
 }
